@@ -48,25 +48,61 @@ func (g *G) MetamorphicProgram(kind string) *Program {
 	}
 	p := &Program{S: st}
 	var ctxOut []KVI
-	if has(cxType, kind) {
-		op := mk("c")
-		p.Chain = []Step{{Kind: "With", Ops: []*Op{op}}}
-		ctxOut = op.Out
-		g.hit(FeContext, kind)
-	}
-	ops := []*Op{mk("e"), MkDict("d", mk("x")), MkObject("o", g.R.Intn(2), mk("x")), {M: "Func", Sub: []*Op{mk("f")}, Out: mk("f").Out}}
-	g.hit(FeEvent, kind)
-	g.hit(FeDict, kind)
-	g.hit(FeObject, kind)
-	g.hit(FeFunc, kind)
 	ak := kind
 	if kind == "AnErr" {
 		ak = "Err"
 	}
+	objIface := func(key string) *Op { // Interface(key, marshaler): the object route
+		return &Op{M: "Interface#obj", HasKey: true, Key: key, Sub: []*Op{mk("x")}, Out: []KVI{{key, Obj(mk("x").Out...)}}}
+	}
+	if has(cxType, kind) {
+		cops := []*Op{mk("c"), MkDict("cd", mk("x")), MkObject("co", g.R.Intn(2), mk("x")), objIface("cio"),
+			{M: "EmbedObject", ObjMode: g.R.Intn(2), Sub: []*Op{mk("cg")}, Out: mk("cg").Out}}
+		if has(arType, ak) && kind != "Any" {
+			cops = append(cops, MkArray("ca", g.R.Intn(2), MkElem(ak, arg, elemIn)))
+		}
+		if inFields[kind] {
+			var fv interface{} = arg
+			if kind == "RawJSON" {
+				fv = json.RawMessage(arg.([]byte))
+			}
+			cops = append(cops, MkFieldsMap("cm", fv, elemIn))
+		}
+		if sk, ok := elemSlice[kind]; ok && has(cxType, sk) {
+			m, _ := cxType.MethodByName(sk)
+			stp := m.Type.In(2)
+			sl := reflect.MakeSlice(stp, 0, 1)
+			if arg == nil {
+				sl = reflect.Append(sl, reflect.Zero(stp.Elem()))
+			} else {
+				sl = reflect.Append(sl, reflect.ValueOf(arg))
+			}
+			cops = append(cops, MkOp(sk, "cv", sl.Interface(), Arr(elemIn)))
+			g.hit(FeContext, sk)
+		}
+		p.Chain = []Step{{Kind: "With", Ops: cops}}
+		ctxOut = outOf(cops)
+		g.hit(FeContext, kind)
+	}
+	// a hook adds the value too
+	hk := &HookSpec{ID: 1, Kind: []int{0, 5}[g.R.Intn(2)], Ops: []*Op{mk("h")}, Out: mk("h").Out}
+	p.Chain = append(p.Chain, Step{Kind: "Hook", Hooks: []*HookSpec{hk}})
+	g.hit(FeHook, kind)
+	ops := []*Op{mk("e"), MkDict("d", mk("x")), MkObject("o", g.R.Intn(2), mk("x")), {M: "Func", Sub: []*Op{mk("f")}, Out: mk("f").Out},
+		{M: "EmbedObject", ObjMode: g.R.Intn(2), Sub: []*Op{mk("g")}, Out: mk("g").Out}, objIface("io")}
+	g.hit(FeEvent, kind)
+	g.hit(FeDict, kind)
+	g.hit(FeObject, kind)
+	g.hit(FeFunc, kind)
 	if has(arType, ak) && kind != "Any" {
 		ops = append(ops, MkArray("a", g.R.Intn(2), MkElem(ak, arg, elemIn)))
 		g.hit(FeArray, ak)
 	}
+	// inside containers of an array: Arr().Dict(..), Arr().Object(..), Arr().Interface(marshaler)
+	ops = append(ops,
+		MkArray("ad", g.R.Intn(2), &Op{M: "Dict", Sub: []*Op{mk("x")}, Elem: Obj(mk("x").Out...)}),
+		MkArray("ao", g.R.Intn(2), &Op{M: "Object", ObjMode: g.R.Intn(2), Sub: []*Op{mk("x")}, Elem: Obj(mk("x").Out...)}),
+		MkArray("aio", g.R.Intn(2), &Op{M: "Interface#obj", ObjMode: g.R.Intn(2), Sub: []*Op{mk("x")}, Elem: Obj(mk("x").Out...)}))
 	if inFields[kind] {
 		var fv interface{} = arg
 		if kind == "RawJSON" {
@@ -96,6 +132,7 @@ func (g *G) MetamorphicProgram(kind string) *Program {
 	p.Events = []EventSpec{ev}
 	f := append([]KVI{}, ctxOut...)
 	f = append(f, outOf(ops)...)
+	f = append(f, hk.Out...)
 	en := st.GlobalLevel <= 6
 	p.Expect = []Expected{{Written: en, Enabled: en, Level: 6, Fields: f}}
 	p.Containers = 3
@@ -107,15 +144,21 @@ func MetaOccurrences(obj *jsonv.Node) map[string][]byte {
 	r := map[string][]byte{}
 	for _, kv := range obj.Obj {
 		switch kv.Key {
-		case "c", "e", "f", "m", "s", "p":
+		case "c", "e", "f", "m", "s", "p", "g", "h", "cg", "cm":
 			r[kv.Key] = kv.Val.Raw
-		case "d", "o":
+		case "d", "o", "io", "cd", "co", "cio":
 			if kv.Val.Kind == jsonv.Object && len(kv.Val.Obj) == 1 {
 				r[kv.Key] = kv.Val.Obj[0].Val.Raw
 			}
-		case "a", "v":
+		case "a", "v", "ca", "cv":
 			if kv.Val.Kind == jsonv.Array && len(kv.Val.Arr) == 1 {
 				r[kv.Key] = kv.Val.Arr[0].Raw
+			}
+		case "ad", "ao", "aio":
+			if kv.Val.Kind == jsonv.Array && len(kv.Val.Arr) == 1 {
+				if el := kv.Val.Arr[0]; el.Kind == jsonv.Object && len(el.Obj) == 1 {
+					r[kv.Key] = el.Obj[0].Val.Raw
+				}
 			}
 		}
 	}
